@@ -112,6 +112,8 @@ pub struct Outcome {
     pub adv_marks: Vec<usize>,
     /// public inputs pushed (in order)
     pub nb_public: usize,
+    /// the error / panic message of the op that stopped the program
+    pub error: Option<String>,
 }
 
 fn val<T: Clone>(v: Value<T>) -> Option<T> {
@@ -389,12 +391,14 @@ where
             out.adv_marks.push(midnight_proofs::circuit::verif_hooks::counter::<F>());
             let r = mzkh::catch(|| Self::step(&chip, &ng, &mut layouter, &vars, o, &mut out.nb_public));
             match r {
-                Err(_p) => {
+                Err(p) => {
                     out.stopped = Some("P".into());
+                    out.error = Some(p);
                     break;
                 }
-                Ok(Err(_e)) => {
+                Ok(Err(e)) => {
                     out.stopped = Some("E".into());
+                    out.error = Some(format!("{e:?}"));
                     break;
                 }
                 Ok(Ok(v)) => {
@@ -407,7 +411,12 @@ where
             }
         }
         out.adv_marks.push(midnight_proofs::circuit::verif_hooks::counter::<F>());
+        let stopped = out.stopped.is_some();
         *self.outcome.borrow_mut() = out;
+        if stopped {
+            // an op failed (possibly inside a region): the layouter cannot be used any more
+            return Err(Error::Synthesis("program stopped".into()));
+        }
         ng.load_from_scratch(&mut layouter)
     }
 }
